@@ -2,6 +2,7 @@
 import glob
 import hashlib
 import json
+import zlib
 import os
 import re
 
@@ -294,7 +295,7 @@ def run(chk, which="C20"):
                 texts.append(("fwd_then_def", f'#include "{h}"\n#include "{full}"\n#include "{h}"\nint main() {{ return 0; }}\n'))
         for kind, text in texts:
             for ci, cfg in enumerate(cfgs):
-                if tier == "quick" and ci == 1 and (hash(h) % 3):
+                if tier == "quick" and ci == 1 and ((zlib.crc32(h.encode()) + core.seed_of()) % 3):  # (deterministic: str hash() varies per process)
                     continue
                 hjobs.append((h, kind, text, cfg))
 
